@@ -2,6 +2,8 @@ package props
 
 import (
 	"fmt"
+	"os"
+	"strconv"
 	"runtime/debug"
 	"strings"
 	"time"
@@ -91,4 +93,14 @@ func trunc(s string, n int) string {
 		return s[:n] + "…"
 	}
 	return s
+}
+
+// shardEnv returns (number of shards, this shard's index) as set by the driver.
+func shardEnv() (int, int) {
+	shards, _ := strconv.Atoi(os.Getenv("VERIF_SHARDS"))
+	idx, _ := strconv.Atoi(os.Getenv("VERIF_SHARD_INDEX"))
+	if shards <= 0 {
+		return 1, 0
+	}
+	return shards, idx
 }
